@@ -219,14 +219,14 @@ pub fn run(monitor: &dyn Monitor, cfg: &RunCfg) -> i32 {
         let mut rec = Recorder::new(shift);
         rec.cur_stream = "cold-start".to_string();
         monitor.cold_start(&mut rec);
-        // one process has one cold start: repeat the probe in 96 fresh child processes (the
+        // one process has one cold start: repeat the probe in 192 fresh child processes (the
         // monitor binary re-executed in `coldstart` mode), eight at a time
         if rec.classes.keys().any(|k| k.starts_with("cold-start")) && std::env::var_os("VERIF_COLDSTART_CHILD").is_none() && (layer().starts_with("release") || layer().starts_with("checked")) {
             if let Ok(exe) = std::env::current_exe() {
                 let mut reports: Vec<String> = Vec::new();
                 let mut ran = 0u64;
-                // 96 children in the quick tier, 480 in the thorough one
-                for round in 0..(if cfg.tier == Tier::Thorough { 60 } else { 12 }) {
+                // 192 children in the quick tier, 480 in the thorough one
+                for round in 0..(if cfg.tier == Tier::Thorough { 60 } else { 24 }) {
                     let kids: Vec<_> = (0..8)
                         .filter_map(|k| {
                             // every second child runs the whole-API probe before the monitor's own
